@@ -16,6 +16,8 @@ struct Target {
     base: Case,
     /// decoder whose final flush is part of the property
     must_flush: bool,
+    /// (decoder targets) what the fault-free run must deliver, when the reference encoder knows it
+    expect: Option<Vec<u8>>,
 }
 
 fn with_env(c: &Case, rd: &Rd, sk: &Sk) -> Case {
@@ -34,6 +36,7 @@ fn targets(tier: Tier) -> Vec<Target> {
         label: label.to_string(),
         base: Case::Dec { fmt, opts: Opts::default(), input: Hex(input), rd: inert.clone(), sk: Sk::default() },
         must_flush,
+        expect: None,
     };
     // ---- LZMA decoder inputs
     let e = enc::encode(3, 0, 2, u64::MAX, &[Sym::L(1), Sym::L(2), Sym::M(2, 9), Sym::S, Sym::E]);
@@ -54,6 +57,29 @@ fn targets(tier: Tier) -> Vec<Target> {
         assert!(e.bad.is_none() && e.expect.len() == 8193);
         t.push(dec("lzma_decompress: non-overlapping matches ending exactly at the 4096 and 8192 window boundaries", Fmt::Lzma, enc::lzma_file(3, 0, 2, 4096, Some(8193), &e.payload), true));
     }
+    // ---- windows above 1 MiB that are not a whole number of MiB, wrapped once and a half: "on success every output byte has
+    // been handed to the sink" (fault-free runs only: thousands of calls)
+    for dict in [0x18_0000u32, 0x10_0001, 3_000_000] {
+        let total = dict as usize + dict as usize / 2 + 777;
+        let mut prog: Vec<Sym> = (0..300u32).map(|b| Sym::L((b * 67 + b / 7 + 3) as u8)).collect();
+        let mut produced = 300usize;
+        let mut k = 0u32;
+        while produced < total {
+            let l = (total - produced).min(273 - (k as usize * 13) % 100);
+            if l >= 2 {
+                prog.push(Sym::M(1 + (k * 31) % 290, l as u32));
+                produced += l;
+            } else {
+                prog.push(Sym::L(k as u8));
+                produced += 1;
+            }
+            k += 1;
+        }
+        let e = enc::encode(3, 0, 2, dict as u64, &prog);
+        let mut tg = dec(&format!("[fault-free only] lzma_decompress {} bytes through a {}-byte window", e.expect.len(), dict), Fmt::Lzma, enc::lzma_file(3, 0, 2, dict, Some(e.expect.len() as u64), &e.payload), true);
+        tg.expect = Some(e.expect.clone());
+        t.push(tg);
+    }
     // ---- the other ways of telling the decoder the size (the header is parsed differently for each)
     {
         use crate::cases::SizeOpt;
@@ -62,7 +88,7 @@ fn targets(tier: Tier) -> Vec<Target> {
         let es = enc::encode(3, 0, 2, u64::MAX, &prog);
         let n = es.expect.len() as u64;
         let mut mk = |label: &str, size: SizeOpt, input: Vec<u8>| {
-            t.push(Target { label: label.to_string(), base: Case::Dec { fmt: Fmt::Lzma, opts: Opts { size, ..Opts::default() }, input: Hex(input), rd: inert.clone(), sk: Sk::default() }, must_flush: true });
+            t.push(Target { label: label.to_string(), base: Case::Dec { fmt: Fmt::Lzma, opts: Opts { size, ..Opts::default() }, input: Hex(input), rd: inert.clone(), sk: Sk::default() }, must_flush: true, expect: None });
         };
         mk("lzma_decompress ReadHeaderButUseProvided(Some(n)), header field wrong", SizeOpt::HeaderProvided(Some(n)), enc::lzma_file(3, 0, 2, 4096, Some(3), &es.payload));
         mk("lzma_decompress ReadHeaderButUseProvided(None) + marker, header field set", SizeOpt::HeaderProvided(None), enc::lzma_file(3, 0, 2, 4096, Some(n), &em.payload));
@@ -114,6 +140,7 @@ fn targets(tier: Tier) -> Vec<Target> {
         label: label.to_string(),
         base: Case::Enc { fmt, size, input: Hex(input), rd: inert.clone(), sk: Sk::default() },
         must_flush: false,
+        expect: None,
     };
     let txt: Vec<u8> = (0..tier.pick(700usize, 2500usize)).map(|i| b"the quick brown fox "[i % 20] ^ ((i / 97) as u8 & 3)).collect();
     for (sn, size) in [("marker", EncSize::HeaderNone), ("size", EncSize::HeaderSome(txt.len() as u64)), ("skip", EncSize::Skip)] {
@@ -132,7 +159,7 @@ fn targets(tier: Tier) -> Vec<Target> {
         let big: Vec<u8> = (0..70_000u32).map(|i| (i.wrapping_mul(2246822519) >> 19) as u8).collect();
         let short_first = Rd { cuts: vec![10, usize::MAX], ..Rd::default() };
         for fmt in [Fmt::Lzma2, Fmt::Xz] {
-            t.push(Target { label: format!("[fault-free only] {:?} compress 70000 bytes, source hands over 10 bytes first", fmt), base: Case::Enc { fmt, size: EncSize::Skip, input: Hex(big.clone()), rd: short_first.clone(), sk: Sk::default() }, must_flush: false });
+            t.push(Target { label: format!("[fault-free only] {:?} compress 70000 bytes, source hands over 10 bytes first", fmt), base: Case::Enc { fmt, size: EncSize::Skip, input: Hex(big.clone()), rd: short_first.clone(), sk: Sk::default() }, must_flush: false, expect: None });
         }
     }
     t.push(enc_t("lzma_compress empty input", Fmt::Lzma, EncSize::HeaderNone, vec![]));
@@ -147,10 +174,10 @@ fn targets(tier: Tier) -> Vec<Target> {
     // ---- Stream (sink faults only: its input is a slice handed over by the caller)
     let e = enc::encode(3, 0, 2, 4096, &grow(big));
     let file = enc::lzma_file(3, 0, 2, 4096, Some(big as u64), &e.payload);
-    t.push(Target { label: format!("Stream {} bytes through a 4096-byte window", big), base: Case::Stream { opts: Opts::default(), sk: Sk::default(), ops: vec![SOp::WriteAll(Hex(file.clone())), SOp::Flush, SOp::Finish] }, must_flush: true });
+    t.push(Target { label: format!("Stream {} bytes through a 4096-byte window", big), base: Case::Stream { opts: Opts::default(), sk: Sk::default(), ops: vec![SOp::WriteAll(Hex(file.clone())), SOp::Flush, SOp::Finish] }, must_flush: true, expect: None });
     let mut ops: Vec<SOp> = file.chunks(7).map(|c| SOp::WriteAll(Hex(c.to_vec()))).collect();
     ops.push(SOp::Finish);
-    t.push(Target { label: format!("Stream {} bytes in 7-byte writes", big), base: Case::Stream { opts: Opts::default(), sk: Sk::default(), ops }, must_flush: true });
+    t.push(Target { label: format!("Stream {} bytes in 7-byte writes", big), base: Case::Stream { opts: Opts::default(), sk: Sk::default(), ops }, must_flush: true, expect: None });
     // output that is an exact multiple of the dictionary size (the last window flush happens inside write), and a stream
     // that allows incomplete input (finish does not validate the end): after a failed write, finish must not succeed
     {
@@ -158,15 +185,15 @@ fn targets(tier: Tier) -> Vec<Target> {
         let f2 = enc::lzma_file(3, 0, 2, 4096, Some(8192), &e2.payload);
         let mut ops: Vec<SOp> = f2.chunks(13).map(|c| SOp::WriteAll(Hex(c.to_vec()))).collect();
         ops.push(SOp::Finish);
-        t.push(Target { label: "Stream 8192 bytes (= 2 x dictionary) in 13-byte writes".into(), base: Case::Stream { opts: Opts::default(), sk: Sk::default(), ops: ops.clone() }, must_flush: true });
-        t.push(Target { label: "Stream 8192 bytes (= 2 x dictionary) in 13-byte writes, allow_incomplete".into(), base: Case::Stream { opts: Opts { allow_incomplete: true, ..Opts::default() }, sk: Sk::default(), ops }, must_flush: true });
+        t.push(Target { label: "Stream 8192 bytes (= 2 x dictionary) in 13-byte writes".into(), base: Case::Stream { opts: Opts::default(), sk: Sk::default(), ops: ops.clone() }, must_flush: true, expect: None });
+        t.push(Target { label: "Stream 8192 bytes (= 2 x dictionary) in 13-byte writes, allow_incomplete".into(), base: Case::Stream { opts: Opts { allow_incomplete: true, ..Opts::default() }, sk: Sk::default(), ops }, must_flush: true, expect: None });
     }
     // other piece sizes: which symbol is decoded from the staging buffer (and so which code path meets the failing
     // window flush) depends on where the piece boundaries fall
     for piece in tier.pick(vec![11usize, 19, 64], vec![2usize, 3, 5, 11, 13, 19, 64, 100]) {
         let mut ops: Vec<SOp> = file.chunks(piece).map(|c| SOp::WriteAll(Hex(c.to_vec()))).collect();
         ops.push(SOp::Finish);
-        t.push(Target { label: format!("Stream {} bytes in {}-byte writes", big, piece), base: Case::Stream { opts: Opts::default(), sk: Sk::default(), ops }, must_flush: true });
+        t.push(Target { label: format!("Stream {} bytes in {}-byte writes", big, piece), base: Case::Stream { opts: Opts::default(), sk: Sk::default(), ops }, must_flush: true, expect: None });
     }
     t
 }
@@ -194,6 +221,11 @@ pub fn run(tier: Tier) -> i32 {
         }
         if t.must_flush && !o.flushed_all {
             ctx.violation(&t.base, &format!("{}: on success every byte handed to the sink is followed by a flush of the sink", t.label), &o, None);
+        }
+        if let Some(want) = &t.expect {
+            if !(o.v.is_ok() && o.out.0 == *want) {
+                ctx.violation(&t.base, &format!("{}: Ok, and every one of the {} output bytes handed to the sink", t.label, want.len()), &o, None);
+            }
         }
         // encoders: "every output byte has been handed to the sink" - what the sink holds decodes back to the input
         if let Case::Enc { fmt, size, input, .. } = &t.base {
